@@ -363,22 +363,40 @@ Definition emit_file_header (cs : cspace) (j : jfif) : list Z :=
   emit_marker M_SOI ++ (if writes_jfif cs then emit_jfif_app0 j else [])
   ++ (if writes_adobe cs then emit_adobe_app14 cs else []).
 
-(* default_decompress_parms: jpeg_color_space from component count, markers, ids *)
+(* default_decompress_parms: jpeg_color_space from component count, markers, process and component ids.
+   The decision itself (which tests, in which order, with which results) is NOT typed here: it is the decision
+   tree ddp_cases / ddp_default that tools/gen_IccConst.py reads from the C text of the current tree; this
+   function only interprets it. *)
+Definition datom_holds (h : hinfo) (lossless : bool) (ids : list Z) (a : datom) : bool :=
+  match a with
+  | AJfif => h_saw_jfif h
+  | AAdobe => h_saw_adobe h
+  | ALossless => lossless
+  | AId k v => nthz ids k =? v
+  end.
+Definition dcond_holds (h : hinfo) (lossless : bool) (ids : list Z) (c : list (bool * datom)) : bool :=
+  forallb (fun l : bool * datom => if fst l then negb (datom_holds h lossless ids (snd l)) else datom_holds h lossless ids (snd l)) c.
+Fixpoint eval_dtree (h : hinfo) (lossless : bool) (ids : list Z) (t : dtree) : Z :=
+  match t with
+  | DLeaf j => j
+  | DIf c a b => if dcond_holds h lossless ids c then eval_dtree h lossless ids a else eval_dtree h lossless ids b
+  | DAdobe alts d =>
+      (fix look (l : list (Z * dtree)) : Z :=
+         match l with
+         | [] => eval_dtree h lossless ids d
+         | vx :: r => if h_transform h =? fst vx then eval_dtree h lossless ids (snd vx) else look r
+         end) alts
+  end.
+Definition cspace_of_jcs (j : Z) : cspace :=
+  if j =? JCS_GRAYSCALE then CS_GRAY else if j =? JCS_RGB then CS_RGB else if j =? JCS_YCbCr then CS_YCbCr
+  else if j =? JCS_CMYK then CS_CMYK else if j =? JCS_YCCK then CS_YCCK else CS_UNKNOWN.
+Definition jcs_of_cspace (cs : cspace) : Z :=
+  match cs with CS_UNKNOWN => JCS_UNKNOWN | CS_GRAY => JCS_GRAYSCALE | CS_RGB => JCS_RGB | CS_YCbCr => JCS_YCbCr
+           | CS_CMYK => JCS_CMYK | CS_YCCK => JCS_YCCK end.
+Definition ddp_tree (ncomp : Z) : dtree :=
+  match find (fun kt => fst kt =? ncomp) ddp_cases with Some kt => snd kt | None => ddp_default end.
 Definition decide_colorspace (ncomp : Z) (h : hinfo) (lossless : bool) (ids : list Z) : cspace :=
-  if ncomp =? 1 then CS_GRAY
-  else if ncomp =? 3 then
-    if h_saw_jfif h then CS_YCbCr
-    else if h_saw_adobe h then
-      (if h_transform h =? 0 then CS_RGB else CS_YCbCr)
-    else
-      let c0 := nthz ids 0 in let c1 := nthz ids 1 in let c2 := nthz ids 2 in
-      if (c0 =? 1) && (c1 =? 2) && (c2 =? 3) then (if lossless then CS_RGB else CS_YCbCr)
-      else if (c0 =? 82) && (c1 =? 71) && (c2 =? 66) then CS_RGB
-      else if lossless then CS_RGB else CS_YCbCr
-  else if ncomp =? 4 then
-    if h_saw_adobe h then (if h_transform h =? 0 then CS_CMYK else CS_YCCK)
-    else CS_CMYK
-  else CS_UNKNOWN.
+  cspace_of_jcs (eval_dtree h lossless ids (ddp_tree ncomp)).
 
 (* ------------------------------------------------- header reading, top level *)
 (* The part of read_markers / jpeg_read_header the property is about: SOI, then markers
